@@ -9,6 +9,7 @@ pub mod c07;
 pub mod c08;
 pub mod c09;
 pub mod c10;
+pub mod c11;
 pub mod c12;
 pub mod c14;
 pub mod c15;
@@ -29,6 +30,7 @@ pub fn run(ctx: &Ctx) -> bool {
         "C08" => c08::run(ctx),
         "C09" => c09::run(ctx),
         "C10" => c10::run(ctx),
+        "C11" => c11::run(ctx),
         "C12" => c12::run(ctx),
         "C14" => c14::run(ctx),
         "C15" => c15::run(ctx),
@@ -54,6 +56,7 @@ fn replay_one(ctx: &Ctx, sub: &str, input: &serde_json::Value) -> Option<Result<
         "C08" => c08::replay(ctx, sub, input),
         "C09" => c09::replay(ctx, sub, input),
         "C10" => c10::replay(ctx, sub, input),
+        "C11" => c11::replay(ctx, sub, input),
         "C12" => c12::replay(ctx, sub, input),
         "C14" => c14::replay(ctx, input),
         "C15" => c15::replay(ctx, sub, input),
